@@ -1082,6 +1082,86 @@ def r_nonefilter(E):
     return res
 
 
+# ---------------------------------------------------------------------------------------------- R-TZFAMILY
+_TF_POSITIVE = '''
+from pytz.tzinfo import DstTzInfo
+import pytz
+def zone_entry(value):
+    if isinstance(value, DstTzInfo) and value.zone is not None:
+        return {"zone": value.zone}
+def zone_entry2(value):
+    if isinstance(value, (pytz.tzinfo.StaticTzInfo, str)):
+        return {"zone": str(value)}
+'''
+_TF_NEGATIVE = '''
+from pytz.tzinfo import BaseTzInfo
+from datetime import tzinfo
+def zone_entry(value):
+    if isinstance(value, BaseTzInfo) and value.zone is not None:
+        return {"zone": value.zone}
+def zone_entry2(value):
+    if isinstance(value, tzinfo):
+        return {"zone": getattr(value, "zone", None)}
+'''
+# pytz's classes of time zones (pytz/tzinfo.py, pytz/__init__.py): BaseTzInfo is the root; zones with transitions are
+# DstTzInfo, zones with one fixed offset (Etc/GMT+5, many historical-free zones) are StaticTzInfo, pytz.UTC is its own class
+_PYTZ_PARTIAL = {"DstTzInfo": "zones whose offset changes (Europe/Paris)", "StaticTzInfo": "zones with one fixed offset (Etc/GMT-3)"}
+
+
+def partial_tz_class_tests(tree):
+    """[(function or None, isinstance call, class name)]: a class test against one of the two concrete families of pytz time
+    zones (imported from pytz.tzinfo or spelled pytz.tzinfo.X) — true for part of the time zones only"""
+    imported = {}
+    for n in ast.walk(tree):
+        if isinstance(n, ast.ImportFrom) and (n.module or "").startswith("pytz"):
+            for a in n.names:
+                if a.name in _PYTZ_PARTIAL:
+                    imported[a.asname or a.name] = a.name
+    out = []
+    for c in [x for x in ast.walk(tree) if isinstance(x, ast.Call) and isinstance(x.func, ast.Name)
+              and x.func.id in ("isinstance", "issubclass") and len(x.args) == 2]:
+        cands = c.args[1].elts if isinstance(c.args[1], ast.Tuple) else [c.args[1]]
+        for t in cands:
+            nm = None
+            if isinstance(t, ast.Name) and t.id in imported:
+                nm = imported[t.id]
+            elif isinstance(t, ast.Attribute) and t.attr in _PYTZ_PARTIAL and norm(t.value) in ("pytz.tzinfo", "tzinfo"):
+                nm = t.attr
+            if nm:
+                fn = c
+                while fn is not None and not isinstance(fn, ast.FunctionDef):
+                    fn = getattr(fn, "_parent", None)
+                out.append((fn, c, nm))
+    return out
+
+
+@rule("R-TZFAMILY")
+def r_tzfamily(E):
+    pm = E.pm
+    res = RuleResult("R-TZFAMILY", "a time zone value is never recognised by a class test against one of pytz's two concrete "
+                                   "families (DstTzInfo / StaticTzInfo): each covers part of the zones only, so UTC and the "
+                                   "fixed-offset zones (or all the others) fall through — a country whose zone has no "
+                                   "transitions is saved without its zone and loaded back with the default one")
+    for mod, (rel, tree, src) in sorted(pm.modules.items()):
+        res.instances += len([x for x in ast.walk(tree) if isinstance(x, ast.Call) and isinstance(x.func, ast.Name)
+                              and x.func.id == "isinstance"])
+        for fn, c, nm in partial_tz_class_tests(tree):
+            q = fn.name if fn is not None else "<module>"
+            res.findings.append(Finding(
+                "R-TZFAMILY", f"{rel}:{q} :: {norm(c)[:80]}",
+                f"{q} recognises a time zone with `{norm(c)[:80]}`: {nm} is only {_PYTZ_PARTIAL[nm]}; pytz.UTC and "
+                f"{'the fixed-offset zones' if nm == 'DstTzInfo' else 'every zone with transitions'} are instances of other "
+                f"subclasses of BaseTzInfo and are not recognised", rel, c.lineno, q, {"clauses": _area(rel)}))
+    pos = partial_tz_class_tests(set_parents(ast.parse(_TF_POSITIVE)))
+    neg = partial_tz_class_tests(set_parents(ast.parse(_TF_NEGATIVE)))
+    if len(pos) != 2 or neg:
+        raise AnalysisError(f"R-TZFAMILY: embedded examples: {len(pos)} of 2 positive recognised, {len(neg)} false reports")
+    res.instances += 2
+    res.samples = [{"embedded_positive_examples_recognised": 2, "embedded_twins_silent": True}]
+    res.floor = 20
+    return res
+
+
 # ---------------------------------------------------------------------------------------------- R-ORDEFAULT
 @rule("R-ORDEFAULT")
 def r_ordefault(E):
